@@ -1,5 +1,6 @@
 """C02 / C03: histogram snapshots.  HistImpl (step level) + HistHB (happens-before ghost) checked by TLC,
 replayed edge by edge into the real Histogram, every recorded history judged by HistCut."""
+import zlib
 from grpa import *
 
 PC_OP = {
@@ -136,7 +137,7 @@ def judge(ctx, pid, sc, results, label, stats):
     return good
 
 
-def run_scenario(ctx, pid, exe, sc, label, stats, samples, model=True, nrandom=0, vias=("direct",), hb=False, liveness=True, nproc=8, check=True):
+def run_scenario(ctx, pid, exe, sc, label, stats, samples, model=True, nrandom=0, vias=("direct",), hb=False, liveness=True, nproc=8, check=True, pb=None):
     # 1. exhaustive model checking of the step-level model for this configuration
     r = check_model(ctx, sc, label, liveness=liveness) if check else {"ok": True, "actions_never": []}
     if not r["ok"]:
@@ -165,12 +166,23 @@ def run_scenario(ctx, pid, exe, sc, label, stats, samples, model=True, nrandom=0
     # 3. model-independent schedules (random / PCT), possibly through the vector and the registry
     for via in vias:
         if nrandom:
-            jobs = random_jobs(label + via, nrandom, ctx.seed * 7919 + hash(label + via) % 1000)
+            jobs = random_jobs(label + via, nrandom, ctx.seed * 7919 + zlib.crc32((label + via).encode()) % 1000)
             res = run_jobs(ctx, exe, harness_scen(sc, via), jobs, "r" + label + via, nproc=nproc)
             for x in res:
                 x["via"] = via
             all_results += res
             stats["random"] += len(res)
+    # 3b. preemption-bounded systematic search on the real code (independent of the step-level model)
+    pb = pb if pb is not None else ((2, 300) if ctx.quick else (3, 10000))
+    if pb and pb[1]:
+        for via in vias:
+            res, info = pb_explore(ctx, exe, harness_scen(sc, via), label + via, pb[0], pb[1], nproc=nproc)
+            for x in res:
+                x["via"] = via
+            all_results += res
+            stats["pb_executions"] = stats.get("pb_executions", 0) + info["executions"]
+            stats["pb_complete"] = stats.get("pb_complete", 0) + (1 if info["complete"] else 0)
+            stats["pb_searches"] = stats.get("pb_searches", 0) + 1
     good = judge(ctx, pid, sc, all_results, label, stats)
     # 4. memory-ordering clause (V2): orderings observed from the code parameterise HistHB
     obs = merge_ords(all_results)
@@ -197,6 +209,8 @@ def finish_cov(ctx, stats, samples, rule):
         "samples": samples or [{"note": "no sample"}],
         "conformance": {"edges_total": stats["edges_total"], "edges_matched": stats["edges_matched"], "paths_replayed": stats["paths"],
                         "steps_replayed": stats["steps"], "paths_conforming": stats["conforming"], "drift_paths": stats["drift"]},
+        "preemption_bounded_search": {"searches": stats.get("pb_searches", 0), "executions": stats.get("pb_executions", 0), "searches_complete_within_bound": stats.get("pb_complete", 0),
+                                      "bound": 2 if ctx.quick else 3, "what": "stateless search over the real code's schedules, all schedules with at most `bound` preemptions up to a cap; histories judged by HistCut"},
         "random_schedules": stats["random"], "distinct_histories_judged": stats["histories"], "histories_rejected": stats["rejected"],
         "orderings_observed": stats["orderings"], "actions_never_fired": stats["never"], "rule": rule,
     })
